@@ -10,10 +10,25 @@ type Mutex struct {
 	vc   sched.VC
 }
 
+// mutexes locked during the current execution: package-level mutexes of the code under test outlive an
+// execution, so whatever an abandoned execution left locked is released when the next one starts
+var lockedNow = map[*Mutex]bool{}
+
+func init() {
+	sched.OnRunStart(func() {
+		for m := range lockedNow {
+			m.held = false
+			m.vc = sched.VC{}
+		}
+		lockedNow = map[*Mutex]bool{}
+	})
+}
+
 func (m *Mutex) Lock() {
 	sched.Point("Mutex.Lock")
 	sched.Block("Mutex.Lock", func() bool { return !m.held })
 	m.held = true
+	lockedNow[m] = true
 	m.vc.AcquireHB()
 }
 
